@@ -1047,6 +1047,9 @@ std::vector<double> TasmanianSparseGrid::getCandidateConstructionPoints(double t
     int outs = base->getNumOutputs();
     if (outs == 0) throw std::runtime_error("ERROR: calling getCandidateConstructionPoints() for a grid that has no outputs");
     if ((output < -1) || (output >= outs)) throw std::invalid_argument("ERROR: calling getCandidateConstructionPoints() with invalid output");
+    size_t nscale = (size_t) base->getNumLoaded(); // one entry per loaded point and active output, same as setSurplusRefinement()
+    if (output == -1) nscale *= (size_t) outs;
+    if ((!scale_correction.empty()) && (scale_correction.size() != nscale)) throw std::invalid_argument("ERROR: getCandidateConstructionPoints() incorrect size for scale_correction");
 
     if (!level_limits.empty()) llimits = level_limits;
     auto x = (isWavelet()) ? get<GridWavelet>()->getCandidateConstructionPoints(tolerance, criteria, output, llimits) :
